@@ -82,7 +82,9 @@ func transform(source, dest *SR, point []float64) ([]float64, error) {
 	}
 	// Adjust for the prime meridian if necessary
 	if !math.IsNaN(source.FromGreenwich) {
-		point[0] += source.FromGreenwich
+		// (adjust_lon: the shift may carry the longitude across the
+		// antimeridian of the new frame)
+		point[0] = adjust_lon(point[0] + source.FromGreenwich)
 	}
 
 	// Convert datums if needed, and if possible.
@@ -94,7 +96,7 @@ func transform(source, dest *SR, point []float64) ([]float64, error) {
 
 	// Adjust for the prime meridian if necessary
 	if !math.IsNaN(dest.FromGreenwich) {
-		point[0] -= dest.FromGreenwich
+		point[0] = adjust_lon(point[0] - dest.FromGreenwich)
 	}
 
 	if dest.Name == longlat {
